@@ -205,7 +205,7 @@ func (c *certStatusChecker) executeInitialStatusAction(ctx context.Context,
 			return fmt.Errorf("recovery: error updating local storage with agglayer certificate: %w", err)
 		}
 	case InitialStatusActionInsertNewCert:
-		if _, err := c.updateLocalStorageWithAggLayerCert(ctx, action.cert); err != nil {
+		if _, err := c.replaceLocalCertWithAggLayerCert(ctx, action.cert, localCert); err != nil {
 			return fmt.Errorf("recovery: error new local storage with agglayer certificate: %w", err)
 		}
 	default:
@@ -217,12 +217,23 @@ func (c *certStatusChecker) executeInitialStatusAction(ctx context.Context,
 // updateLocalStorageWithAggLayerCert updates the local storage with the certificate from the AggLayer
 func (c *certStatusChecker) updateLocalStorageWithAggLayerCert(ctx context.Context,
 	aggLayerCert *agglayertypes.CertificateHeader) (*types.Certificate, error) {
+	return c.replaceLocalCertWithAggLayerCert(ctx, aggLayerCert, nil)
+}
+
+// replaceLocalCertWithAggLayerCert updates the local storage with the certificate from the AggLayer,
+// localCert is the last certificate in the local storage (nil if there is none)
+func (c *certStatusChecker) replaceLocalCertWithAggLayerCert(ctx context.Context,
+	aggLayerCert *agglayertypes.CertificateHeader, localCert *types.CertificateHeader) (*types.Certificate, error) {
 	cert, err := newCertificateInfoFromAgglayerCertHeader(aggLayerCert)
 	if err != nil {
 		return nil, fmt.Errorf("error creating certificate from AggLayer header: %w", err)
 	}
 	if cert == nil {
 		return nil, nil
+	}
+	if localCert != nil && localCert.Height == cert.Header.Height {
+		// the certificate replaces the local one for the same height, so it is its next retry
+		cert.Header.RetryCount = localCert.RetryCount + 1
 	}
 
 	c.log.Infof("setting initial certificate from AggLayer: %s", cert.String())
